@@ -70,6 +70,100 @@ func nlGen(g *G, tier string) []M {
 			}
 		}
 	}
+	// identifiers that contain the character edge targets are joined with when edges are compared:
+	// an edge to "lib+ssl" and an edge to "lib" and "ssl" are different edges, in merges (one in
+	// each operand) and in extractions (both in one list, in either order)
+	for _, op := range ops {
+		name := asStr(op["op"])
+		nd := func(id string) M { return M{"id": id, "type": 0.0, "a": M{}} }
+		ty := float64(EdgeTypes[g2.Int(3)])
+		nodes := func() []any { return []any{nd("app"), nd("lib+ssl"), nd("lib"), nd("ssl"), nd("far")} }
+		one := M{"ty": ty, "src": "app", "tos": []any{"lib+ssl"}}
+		two := M{"ty": ty, "src": "app", "tos": []any{"lib", "ssl"}}
+		tail := M{"ty": 5.0, "src": "lib+ssl", "tos": []any{"far"}}
+		switch name {
+		case "intersect", "union", "add":
+			if !g2.Chance(0.04) {
+				continue
+			}
+			op["a"] = M{"nodes": nodes(), "edges": []any{one, tail}, "roots": []any{"app"}}
+			op["b"] = M{"nodes": nodes(), "edges": []any{two}, "roots": []any{"app"}}
+			if g2.Chance(0.5) {
+				op["a"], op["b"] = op["b"], op["a"]
+			}
+		case "nodeGraph", "nodeSiblings", "nodeDescendants":
+			if !g2.Chance(0.04) {
+				continue
+			}
+			es := []any{one, two, tail}
+			if g2.Chance(0.5) {
+				es = []any{two, one, tail}
+			}
+			op["a"] = M{"nodes": nodes(), "edges": es, "roots": []any{"app"}}
+			op["id"] = "app"
+		case "purlType":
+			// a type that is empty or the separator itself, and purls that repeat the separator
+			if !g2.Chance(0.3) {
+				continue
+			}
+			op["t"] = g2.Pick([]string{"", "/", "npm"})
+			a, _ := op["a"].(M)
+			if a == nil {
+				continue
+			}
+			have := map[string]bool{}
+			for _, n := range asList(a["nodes"]) {
+				have[asStr(n.(M)["id"])] = true
+			}
+			nl := asList(a["nodes"])
+			for k, pu := range []string{"pkg://npm/x", "pkg:///npm/x", "pkg:/npm/y", "pkg:npm/z"} {
+				if id := fmt.Sprintf("slash-%d", k); !have[id] && g2.Chance(0.7) {
+					nl = append(nl, M{"id": id, "type": 0.0, "a": M{"Identifiers": []any{[]any{1.0, pu}}}})
+				}
+			}
+			a["nodes"] = nl
+		}
+	}
+	// dates at and past the ends of the range protobuf calls valid, in the second operand of a merge:
+	// a date that is there is taken over like any other
+	for _, op := range ops {
+		switch asStr(op["op"]) {
+		case "intersect", "union", "add", "update":
+		default:
+			continue
+		}
+		if !g2.Chance(0.05) {
+			continue
+		}
+		far := [][]any{{253402300800.0, 0.0}, {-62135596801.0, 0.0}, {253402300799.0, 0.0}, {-62135596800.0, 0.0}}[g2.Int(4)]
+		fld := g2.Pick([]string{"ReleaseDate", "BuildDate", "ValidUntilDate"})
+		if asStr(op["op"]) == "update" {
+			if m, ok := op["m"].(M); ok {
+				if at, ok := m["a"].(M); ok {
+					at[fld] = far
+				}
+			}
+			continue
+		}
+		first := M{"id": "dated", "type": 0.0, "a": M{fld: []any{1893456000.0, 0.0}}}
+		if g2.Chance(0.4) {
+			first = M{"id": "dated", "type": 0.0, "a": M{}}
+		}
+		second := M{"id": "dated", "type": 0.0, "a": M{fld: far}}
+		for k, nd := range []M{first, second} {
+			l, _ := op[[]string{"a", "b"}[k]].(M)
+			if l == nil {
+				continue
+			}
+			keep := []any{}
+			for _, n := range asList(l["nodes"]) {
+				if asStr(n.(M)["id"]) != "dated" {
+					keep = append(keep, n)
+				}
+			}
+			l["nodes"] = append(keep, nd)
+		}
+	}
 	// some extractions from a list with two edges of one source whose types are different numbers
 	// without a name (in either order), and some lookups by software identifier on lists that hold
 	// the value under the type asked for, under the unknown type and under another type
